@@ -221,6 +221,23 @@ CHECKS['C10'] = dict(
     design='§5 C10',
     note=COMMON_NOTE + 'Django\'s MigrationLoader/executor and migration_plan for chains are assumed primitives (observed). Evolutions are discovered as modules; migrations are handed to EvolveAppTask(migrations=...) because they exist in memory only.')
 
+CHECKS['C14'] = dict(
+    technique='Lean 4 proof (permutation invariance of the emitted statement list unless the code iterates over a bare set; iteration mode regenerated from the source) + multi-process differential oracle over PYTHONHASHSEED',
+    text=('Model of the statements emitted per entry of a set with the iteration order of that set as an explicit '
+          'permutation argument: proved for every pair of permutations that the output is identical when the code '
+          'sorts or walks the declared list (C14_perm_invariant), with a counterexample for iteration over the set itself '
+          '(finding F14, repaired in /repo); the iteration mode of change_meta_unique_together / '
+          'change_meta_index_together is extracted from the source on every run and C14_source_iteration_deterministic '
+          'is re-checked against it. C14_equal_if_defs_unchanged / C14_cex_preview_differs: a second optimiser pass over '
+          'definitions the first pass left alone gives the same list, and not otherwise. On the real code every case '
+          '(generated upgrades with rows plus the family "unique_together/index_together from one set of 0-4 pairs to '
+          'another") runs in 4 (quick) / 16 (thorough) fresh processes with different PYTHONHASHSEED; each runs '
+          '`evolve --sql`, `--hint`, `--execute`, `--hint --sql`, `--hint --execute`: previewed statements == executed '
+          'statements (rendered with the backend\'s own quoting; a prefix when the database rejects a statement), the '
+          'preview leaves the database untouched, and all five outputs are identical across processes.'),
+    design='§5 C14',
+    note=COMMON_NOTE + 'Model-creation SQL is not part of the preview by design of the command and is not compared. SQLite only. The hash seed is the only source of nondeterminism explored (no locale/time).')
+
 NOT_YET = {}
 
 
